@@ -2,11 +2,17 @@
 //! scheduler can interleave threads *inside* calls made through the ABI.
 #![allow(dead_code)]
 use savefile_derive::savefile_abi_exportable;
+#[cfg(not(simconc_std))]
 use shuttle::sync::Mutex;
+#[cfg(simconc_std)]
+use std::sync::Mutex;
 
 pub fn preempt() {
     // a context switch opportunity (sleep, not yield_now: yield_now deprioritises the thread under PCT)
+    #[cfg(not(simconc_std))]
     shuttle::thread::sleep(std::time::Duration::from_millis(0));
+    #[cfg(simconc_std)]
+    std::thread::yield_now();
 }
 
 #[savefile_abi_exportable(version = 0)]
